@@ -1,26 +1,1425 @@
-//! C11 - not built yet.
-use crate::engine::{PropertyInfo, RunCtx};
+//! C11 - STBC container: total decoder/validator, exact round trip, validated means safe.
+//!
+//! Domain: (1) `raw`: random bytes, random bytes behind a well-formed header/section table
+//! (CRC recomputed or CRC flag cleared), and self-contained replay containers; (2) `patch`:
+//! byte-level patches of the counts/indices/offsets/lengths/sizes/enum bytes of
+//! compiler-emitted containers (field map from an independent layout walker) to hostile
+//! values, CRC recomputed or flag cleared; (3) `model`: typed mutation of the decoded
+//! `BytecodeModule` (cyclic/deep types, crafted constants, generated instruction streams,
+//! hostile task/process-image metadata, dangling indices) followed by `encode()`;
+//! (4) `emit`: every program of the corpus (hand-written programs + every .st file, project
+//! directory, Markdown block and Rust-test raw string under the repository that compiles).
+//!
+//! Oracles: decode/validate/metadata/encode return (no panic; an abort, stack overflow or
+//! allocation failure under RLIMIT_AS kills the worker and is attributed to the journalled
+//! case by the engine); for every decoded module m: decode(encode(m)) == m and
+//! encode(decode(encode(m))) == encode(m); for every compiled program: validate Ok,
+//! decode(e) == m, encode(decode(e)) == e byte for byte; every container that validates is
+//! applied with `apply_bytecode_bytes` to a runtime built from its originating program and
+//! to an unrelated runtime (hot: one cycle has already run) and three cycles follow - no
+//! panic anywhere.
+
+use std::collections::BTreeMap;
+use std::sync::OnceLock;
+
+use proptest::prelude::*;
+use serde::{Deserialize, Serialize};
+use serde_json::json;
+use trust_runtime::bytecode::{BytecodeError, BytecodeModule};
+use trust_runtime::value::Duration;
+
+use crate::engine::tape::{tape_strategy, Reader, Tape};
+use crate::engine::{catch, digest64, Probe, PropertyInfo, RunCtx};
+
+pub mod layout;
+pub mod modelmut;
+pub mod programs;
+
+use layout::{Field, Kind, Layout};
+use programs::{corpus, Prog};
 
 pub fn info() -> PropertyInfo {
     PropertyInfo {
         id: "C11",
         level: "exploration",
-        rule: "not built yet",
-        assumptions: &[],
-        workers_quick: 1,
-        workers_thorough: 1,
-        address_space_limit: 0,
-        watchdog_quick_s: 600,
-        watchdog_thorough_s: 3600,
+        rule: "cases = random / framed-random byte strings, byte-level patches of every count/index/offset/length/size/enum field of compiler-emitted containers (CRC recomputed or CRC flag cleared), typed mutations of the decoded model re-encoded with encode(), and every compiled corpus program; non-trivial = the input passes the magic + header + section-table + CRC gate and reaches a section decoder (decode returns Ok or a section-level error), or is a compiled program; distinct by SHA-256 of the container bytes; the classification lists every patched (section, field) class and the decode/validate/apply outcomes",
+        assumptions: &[
+            "memory proportional to the input is judged by RLIMIT_AS = 1 GiB per worker (>= 2000x the largest input) and an 8 MiB stack",
+            "containers declaring a process image above 64 MiB are not applied (counted as apply=skipped_big_image)",
+            "program corpus = hand-written programs + repository sources that compile (no stgen yet)",
+            "apply_bytecode_bytes installs task and process-image metadata only; the runtime does not execute container code, so 'safe' is judged on apply + three execute_cycle calls",
+        ],
+        workers_quick: 8,
+        workers_thorough: 16,
+        address_space_limit: 1 << 30,
+        watchdog_quick_s: 900,
+        watchdog_thorough_s: 10_800,
         run,
     }
 }
 
-/// Helper subcommands (child processes of this check); None = not mine.
-pub fn helper(_args: &[String]) -> Option<i32> {
+const MAX_IMAGE_BYTES: u64 = 64 << 20;
+
+// ---------------------------------------------------------------------------------------
+// outcome naming
+
+pub fn err_name(e: &BytecodeError) -> &'static str {
+    match e {
+        BytecodeError::InvalidMagic => "InvalidMagic",
+        BytecodeError::UnsupportedVersion { .. } => "UnsupportedVersion",
+        BytecodeError::InvalidHeader(_) => "InvalidHeader",
+        BytecodeError::InvalidChecksum { .. } => "InvalidChecksum",
+        BytecodeError::InvalidSectionTable(_) => "InvalidSectionTable",
+        BytecodeError::SectionOutOfBounds => "SectionOutOfBounds",
+        BytecodeError::SectionOverlap => "SectionOverlap",
+        BytecodeError::SectionAlignment => "SectionAlignment",
+        BytecodeError::UnexpectedEof => "UnexpectedEof",
+        BytecodeError::InvalidSection(_) => "InvalidSection",
+        BytecodeError::MissingSection(_) => "MissingSection",
+        BytecodeError::InvalidOpcode(_) => "InvalidOpcode",
+        BytecodeError::InvalidJumpTarget(_) => "InvalidJumpTarget",
+        BytecodeError::InvalidPouId(_) => "InvalidPouId",
+        BytecodeError::InvalidIndex { .. } => "InvalidIndex",
+    }
+}
+
+/// Did decoding get past magic, header, section table and CRC and into a section decoder?
+fn passed_gate(bytes: &[u8], r: &Result<BytecodeModule, BytecodeError>) -> bool {
+    match r {
+        Ok(m) => !m.sections.is_empty(),
+        Err(e) => {
+            bytes.len() >= 24
+                && matches!(
+                    e,
+                    BytecodeError::UnexpectedEof | BytecodeError::InvalidSection(_)
+                )
+        }
+    }
+}
+
+/// Messages of `BytecodeModule::validate` (as opposed to "the encoder does not support this
+/// construct"): a compile error of this class means the compiler built a container that
+/// fails its own validation.
+fn validator_class(msg: &str) -> bool {
+    const M: &[&str] = &[
+        "invalid opcode",
+        "invalid jump target",
+        "invalid POU id",
+        "invalid index",
+        "missing required section",
+        "unexpected end of input",
+        "invalid array bounds",
+        "const payload length",
+        "unknown primitive",
+        "struct/union constant count mismatch",
+        "unsupported const type",
+        "interface mapping expects interface type",
+        "interface mapping slot mismatch",
+        "POU code out of bounds",
+        "CALL_VIRTUAL expects interface type",
+        "CALL_VIRTUAL slot out of range",
+        "task references unknown program",
+        "invalid retain policy",
+        "POU code range overflow",
+        "debug map code offset out of bounds",
+    ];
+    M.iter().any(|m| msg.contains(m))
+}
+
+// ---------------------------------------------------------------------------------------
+// the oracle on one container
+
+#[derive(Default, Debug, Clone)]
+pub struct Outcome {
+    pub gate: bool,
+    pub decode: String,
+    pub validate: String,
+    pub metadata: String,
+    pub apply: Vec<String>,
+}
+
+/// The programs a container is applied to when it has no originating program, and the
+/// pool of "unrelated" runtimes.
+const OTHERS: &[&str] = &[
+    "hand/io_bindings",
+    "hand/fb_task",
+    "hand/two_tasks_single",
+    "hand/retain",
+    "hand/counter",
+    "hand/fb_methods_timers",
+];
+
+fn other_prog(sel: u8, not: Option<&str>) -> Option<&'static Prog> {
+    for k in 0..OTHERS.len() {
+        let name = OTHERS[(sel as usize + k) % OTHERS.len()];
+        if Some(name) == not {
+            continue;
+        }
+        if let Some(p) = programs::hand_prog(name) {
+            return Some(p);
+        }
+    }
     None
 }
 
+/// Apply `bytes` to a fresh runtime of `prog` that has already run one cycle, then run three
+/// more cycles. Err = a panic (the violation message).
+fn apply_to(prog: &Prog, bytes: &[u8], resource: Option<&str>) -> Result<String, String> {
+    let mut rt = match catch(|| prog.session().build_runtime()) {
+        Ok(Ok(rt)) => rt,
+        _ => return Ok("runtime_build_failed".into()),
+    };
+    // safety net only (corpus programs end their cycle within milliseconds): an endless
+    // loop becomes an ExecutionTimeout fault instead of hanging the worker
+    rt.set_execution_deadline(Some(std::time::Instant::now() + std::time::Duration::from_secs(10)));
+    // hot reload: the runtime is already cycling
+    let _ = catch(|| rt.execute_cycle());
+    let applied = catch(|| rt.apply_bytecode_bytes(bytes, resource)).map_err(|p| {
+        format!(
+            "apply_bytecode_bytes panicked on a container that validates (runtime of {}): {p}",
+            prog.name
+        )
+    })?;
+    let mut label = match &applied {
+        Ok(()) => "Ok".to_string(),
+        Err(e) => format!("Err:{}", variant_name(&format!("{e:?}"))),
+    };
+    for (i, step) in programs::CYCLE_STEPS_NANOS.iter().enumerate() {
+        rt.advance_time(Duration::from_nanos(*step));
+        let r = catch(|| rt.execute_cycle()).map_err(|p| {
+            format!(
+                "execute_cycle #{i} panicked after apply_bytecode_bytes returned {label} (runtime of {}): {p}",
+                prog.name
+            )
+        })?;
+        if i == 2 {
+            label.push_str(if r.is_ok() { "/cycle=Ok" } else { "/cycle=Err" });
+        }
+    }
+    Ok(label)
+}
+
+fn variant_name(debug: &str) -> String {
+    debug
+        .split(|c: char| !(c.is_ascii_alphanumeric() || c == '_'))
+        .next()
+        .unwrap_or("")
+        .to_string()
+}
+
+/// All oracles on one byte string. `origin` = the program the container was derived from.
+pub fn check_container(bytes: &[u8], origin: Option<&Prog>, other: u8) -> Result<Outcome, String> {
+    let mut out = Outcome::default();
+    let dec = catch(|| BytecodeModule::decode(bytes)).map_err(|p| format!("decode panicked: {p}"))?;
+    out.gate = passed_gate(bytes, &dec);
+    let m = match dec {
+        Err(e) => {
+            out.decode = format!("Err:{}", err_name(&e));
+            return Ok(out);
+        }
+        Ok(m) => m,
+    };
+    out.decode = "Ok".into();
+    let val = catch(|| m.validate()).map_err(|p| format!("validate panicked: {p}"))?;
+    out.validate = match &val {
+        Ok(()) => "Ok".into(),
+        Err(e) => format!("Err:{}", err_name(e)),
+    };
+    let meta = catch(|| m.metadata()).map_err(|p| format!("metadata panicked: {p}"))?;
+    out.metadata = match &meta {
+        Ok(_) => "Ok".into(),
+        Err(e) => format!("Err:{}", err_name(e)),
+    };
+    // a decoded module encodes, and the encoding decodes to the same module
+    let enc = catch(|| m.encode()).map_err(|p| format!("encode of a decoded module panicked: {p}"))?;
+    match enc {
+        Err(e) => return Err(format!("encode of a decoded module failed: {e}")),
+        Ok(b2) => {
+            let d2 = catch(|| BytecodeModule::decode(&b2))
+                .map_err(|p| format!("decode(encode(m)) panicked: {p}"))?;
+            match d2 {
+                Err(e) => return Err(format!("decode(encode(m)) fails with '{e}' for a module m that the decoder itself produced")),
+                Ok(m2) => {
+                    if modelmut::without_offsets(&m2) != modelmut::without_offsets(&m) {
+                        return Err(format!(
+                            "decode(encode(m)) != m for a module m that the decoder produced: {}",
+                            first_difference(&m, &m2)
+                        ));
+                    }
+                    let b3 = catch(|| m2.encode())
+                        .map_err(|p| format!("encode panicked: {p}"))?
+                        .map_err(|e| format!("encode(decode(encode(m))) failed: {e}"))?;
+                    if b3 != b2 {
+                        return Err(format!(
+                            "encode(decode(e)) != e for e = encode(m): first difference at byte {}",
+                            first_byte_difference(&b2, &b3)
+                        ));
+                    }
+                }
+            }
+        }
+    }
+    if val.is_err() {
+        return Ok(out);
+    }
+    // validated means safe
+    if let Ok(meta) = &meta {
+        let too_big = meta.resources.iter().any(|r| {
+            r.process_image.inputs as u64 + r.process_image.outputs as u64 + r.process_image.memory as u64
+                > MAX_IMAGE_BYTES
+        });
+        if too_big {
+            out.apply.push("skipped_big_image".into());
+            return Ok(out);
+        }
+    }
+    let resource: Option<String> = match (&meta, other % 4) {
+        (Ok(meta), 1) => meta.resources.last().map(|r| r.name.to_string()),
+        (_, 2) => Some("NoSuchResource".into()),
+        _ => None,
+    };
+    if let Some(p) = origin {
+        out.apply
+            .push(format!("own:{}", apply_to(p, bytes, resource.as_deref())?));
+    }
+    if let Some(p) = other_prog(other, origin.map(|p| p.name.as_str())) {
+        out.apply
+            .push(format!("other:{}", apply_to(p, bytes, resource.as_deref())?));
+    }
+    if origin.is_none() {
+        if let Some(p) = other_prog(other.wrapping_add(1), None) {
+            out.apply
+                .push(format!("other:{}", apply_to(p, bytes, resource.as_deref())?));
+        }
+    }
+    Ok(out)
+}
+
+fn first_byte_difference(a: &[u8], b: &[u8]) -> String {
+    match a.iter().zip(b.iter()).position(|(x, y)| x != y) {
+        Some(i) => format!("{i} ({:#04x} vs {:#04x})", a[i], b[i]),
+        None => format!("{} (lengths {} vs {})", a.len().min(b.len()), a.len(), b.len()),
+    }
+}
+
+fn first_difference(a: &BytecodeModule, b: &BytecodeModule) -> String {
+    if a.version != b.version {
+        return format!("version {:?} vs {:?}", a.version, b.version);
+    }
+    if a.flags != b.flags {
+        return format!("flags {:#x} vs {:#x}", a.flags, b.flags);
+    }
+    if a.sections.len() != b.sections.len() {
+        return format!("{} sections vs {}", a.sections.len(), b.sections.len());
+    }
+    let a2 = modelmut::without_offsets(a);
+    let b2 = modelmut::without_offsets(b);
+    for (i, (x, y)) in a2.sections.iter().zip(b2.sections.iter()).enumerate() {
+        if x != y {
+            let dx = format!("{x:?}");
+            let dy = format!("{y:?}");
+            let at = dx
+                .bytes()
+                .zip(dy.bytes())
+                .position(|(p, q)| p != q)
+                .unwrap_or(dx.len().min(dy.len()));
+            let lo = at.saturating_sub(60);
+            let cut = |s: &str| {
+                let hi = (at + 60).min(s.len());
+                let mut lo2 = lo.min(s.len());
+                while !s.is_char_boundary(lo2) {
+                    lo2 -= 1;
+                }
+                let mut hi2 = hi;
+                while !s.is_char_boundary(hi2) {
+                    hi2 -= 1;
+                }
+                s[lo2..hi2].to_string()
+            };
+            return format!(
+                "section #{i} ({}) differs: ...{}... vs ...{}...",
+                layout::section_name(x.id),
+                cut(&dx),
+                cut(&dy)
+            );
+        }
+    }
+    "no difference found outside type offsets".into()
+}
+
+fn record(out: &Outcome, bytes: &[u8], class: &str, probe: &mut Probe, sample: serde_json::Value) {
+    probe.label(format!("gen={class}"));
+    probe.label(format!("decode={}", out.decode));
+    if !out.validate.is_empty() {
+        probe.label(format!("validate={}", out.validate));
+    }
+    if !out.metadata.is_empty() && out.validate == "Ok" {
+        probe.label(format!("validated.metadata={}", out.metadata));
+    }
+    for a in &out.apply {
+        probe.label(format!("apply={a}"));
+    }
+    if out.gate {
+        probe.label("gate=passed");
+        probe.nontrivial(bytes);
+        probe.sample(sample);
+    } else {
+        probe.label("gate=rejected");
+    }
+}
+
+// ---------------------------------------------------------------------------------------
+// (1) raw bytes
+
+#[derive(Clone, Debug, Serialize, Deserialize)]
+pub struct RawCase {
+    /// container bytes, hex
+    pub hex: String,
+    /// short generator class (label)
+    #[serde(default)]
+    pub kind: String,
+    /// free text: where a replay container came from
+    #[serde(default)]
+    pub note: String,
+    /// long repetitive stretches elided from `hex` (keeps replay files small): after
+    /// decoding `hex`, insert `times` copies of `hex` at byte offset `at`, in order
+    #[serde(default, skip_serializing_if = "Vec::is_empty")]
+    pub runs: Vec<Run>,
+}
+
+#[derive(Clone, Debug, Serialize, Deserialize)]
+pub struct Run {
+    pub at: usize,
+    pub hex: String,
+    pub times: usize,
+}
+
+impl RawCase {
+    pub fn bytes(&self) -> Vec<u8> {
+        let mut b = from_hex(&self.hex);
+        for run in &self.runs {
+            let unit = from_hex(&run.hex);
+            let at = run.at.min(b.len());
+            let mut ins = Vec::with_capacity(unit.len() * run.times.min(1 << 20));
+            for _ in 0..run.times.min(1 << 20) {
+                ins.extend_from_slice(&unit);
+            }
+            b.splice(at..at, ins);
+        }
+        b
+    }
+}
+
+fn to_hex(b: &[u8]) -> String {
+    let mut s = String::with_capacity(b.len() * 2);
+    for x in b {
+        s.push_str(&format!("{x:02x}"));
+    }
+    s
+}
+
+fn from_hex(s: &str) -> Vec<u8> {
+    let b = s.as_bytes();
+    let mut out = Vec::with_capacity(b.len() / 2);
+    let v = |c: u8| match c {
+        b'0'..=b'9' => c - b'0',
+        b'a'..=b'f' => c - b'a' + 10,
+        b'A'..=b'F' => c - b'A' + 10,
+        _ => 0,
+    };
+    let mut i = 0;
+    while i + 1 < b.len() {
+        out.push(v(b[i]) << 4 | v(b[i + 1]));
+        i += 2;
+    }
+    out
+}
+
+pub fn fix_crc(bytes: &mut [u8], mode: u8) {
+    if bytes.len() < 24 {
+        return;
+    }
+    match mode {
+        0 => {
+            let off = u32::from_le_bytes([bytes[16], bytes[17], bytes[18], bytes[19]]) as usize;
+            if off <= bytes.len() {
+                let crc = crc32fast::hash(&bytes[off..]);
+                bytes[20..24].copy_from_slice(&crc.to_le_bytes());
+            }
+        }
+        1 => bytes[8] &= !1,
+        _ => {}
+    }
+}
+
+/// Random section payloads behind a well-formed header and section table.
+fn framed_from_tape(tape: &Tape) -> Vec<u8> {
+    let mut r = Reader::new(tape);
+    let nsec = r.pick(7);
+    let minor: u16 = [1u16, 1, 1, 0, 2][r.pick(5)];
+    let crc_mode = r.weighted(&[3, 2]) as u8;
+    let mut payloads: Vec<(u16, Vec<u8>)> = Vec::new();
+    for _ in 0..nsec {
+        let id = match r.pick(14) {
+            v @ 0..=11 => v as u16 + 1,
+            12 => 0,
+            _ => 0x4242,
+        };
+        let len = r.pick(48);
+        let mut p = Vec::with_capacity(len + 4);
+        // leading count: small, or hostile
+        let count: u32 = match r.pick(8) {
+            0 => 0,
+            1 => 1,
+            2 => 2,
+            3 => 3,
+            4 => 0xFFFF_FFF0,
+            5 => 0x7FFF_FFFF,
+            6 => 0x0100_0000,
+            _ => r.word(),
+        };
+        p.extend_from_slice(&count.to_le_bytes());
+        for _ in 0..len {
+            let w = r.word();
+            // mostly small bytes so that nested counts/lengths stay plausible
+            p.push(if w & 0x300 == 0 { (w >> 16) as u8 } else { (w >> 16) as u8 & 0x07 });
+        }
+        if r.chance(1, 6) {
+            p.truncate(r.pick(p.len() + 1));
+        }
+        payloads.push((id, p));
+    }
+    let mut bytes = Vec::new();
+    bytes.extend_from_slice(b"STBC");
+    bytes.extend_from_slice(&1u16.to_le_bytes());
+    bytes.extend_from_slice(&minor.to_le_bytes());
+    bytes.extend_from_slice(&1u32.to_le_bytes());
+    bytes.extend_from_slice(&24u16.to_le_bytes());
+    bytes.extend_from_slice(&(payloads.len() as u16).to_le_bytes());
+    bytes.extend_from_slice(&24u32.to_le_bytes());
+    bytes.extend_from_slice(&0u32.to_le_bytes());
+    let mut off = 24 + payloads.len() * 12;
+    for (id, p) in &payloads {
+        bytes.extend_from_slice(&id.to_le_bytes());
+        bytes.extend_from_slice(&0u16.to_le_bytes());
+        bytes.extend_from_slice(&(off as u32).to_le_bytes());
+        bytes.extend_from_slice(&(p.len() as u32).to_le_bytes());
+        off = (off + p.len() + 3) & !3;
+    }
+    for (_, p) in &payloads {
+        bytes.extend_from_slice(p);
+        while bytes.len() % 4 != 0 {
+            bytes.push(0);
+        }
+    }
+    fix_crc(&mut bytes, crc_mode);
+    bytes
+}
+
+fn check_raw(case: &RawCase, probe: &mut Probe) -> Result<(), String> {
+    let bytes = case.bytes();
+    let out = check_container(&bytes, None, bytes.len() as u8)?;
+    let class = if case.kind.is_empty() { "raw" } else { case.kind.as_str() };
+    record(
+        &out,
+        &bytes,
+        class,
+        probe,
+        json!({"class": class, "len": bytes.len(), "decode": out.decode, "validate": out.validate}),
+    );
+    Ok(())
+}
+
+// ---------------------------------------------------------------------------------------
+// (2) byte-level patches
+
+#[derive(Clone, Debug, Serialize, Deserialize)]
+pub struct Patch {
+    /// the (section, field) class: section id (0 = header, 0xFFFF = section table) ...
+    pub sec: u16,
+    /// ... and field name as the layout walker calls it
+    pub field: String,
+    /// selects the instance of that field
+    pub inst: u32,
+    /// selects the hostile value
+    pub val: u8,
+    pub raw: u64,
+}
+
+#[derive(Clone, Debug, Serialize, Deserialize)]
+pub struct PatchCase {
+    pub prog: String,
+    pub patches: Vec<Patch>,
+    /// 0 none, 1 truncate, 2 append garbage, 3 truncate at a section end
+    pub tail: u8,
+    pub tail_arg: u32,
+    /// 0 recompute CRC, 1 clear the CRC flag, 2 leave the stale CRC
+    pub crc: u8,
+    pub other: u8,
+}
+
+fn layouts() -> &'static BTreeMap<String, Layout> {
+    static L: OnceLock<BTreeMap<String, Layout>> = OnceLock::new();
+    L.get_or_init(|| {
+        corpus()
+            .progs
+            .iter()
+            .map(|p| (p.name.clone(), layout::walk(&p.bytes)))
+            .collect()
+    })
+}
+
+fn scaled(sel: u32, n: usize) -> usize {
+    if n == 0 {
+        return 0;
+    }
+    ((sel as u64 * n as u64) >> 32) as usize
+}
+
+fn read_le(b: &[u8], off: usize, width: u8) -> u64 {
+    let mut v = 0u64;
+    for i in 0..width as usize {
+        v |= (*b.get(off + i).unwrap_or(&0) as u64) << (8 * i);
+    }
+    v
+}
+
+fn write_le(b: &mut [u8], off: usize, width: u8, v: u64) {
+    for i in 0..width as usize {
+        if let Some(x) = b.get_mut(off + i) {
+            *x = (v >> (8 * i)) as u8;
+        }
+    }
+}
+
+/// The hostile value for one field.
+fn hostile_value(f: &Field, lay: &Layout, orig: u64, val: u8, raw: u64) -> u64 {
+    let c = &lay.counts;
+    let o = orig as u32;
+    let pick = |list: &[u64]| list[val as usize % list.len()];
+    let idx = |n: u32| -> u64 {
+        pick(&[
+            0,
+            n.wrapping_sub(1) as u64,
+            n as u64,
+            n.wrapping_add(1) as u64,
+            f.entry as u64,
+            o.wrapping_add(1) as u64,
+            0x7FFF_FFFF,
+            0x8000_0000,
+            0xFFFF_FFF0,
+            0xFFFF_FFFE,
+            0xFFFF_FFFF,
+            raw % n.max(1) as u64,
+        ])
+    };
+    let v = match (f.kind, f.width) {
+        (Kind::Count | Kind::Len, 4) => pick(&[
+            0,
+            1,
+            o.wrapping_sub(1) as u64,
+            o.wrapping_add(1) as u64,
+            o.wrapping_mul(2) as u64,
+            0x7FFF_FFFF,
+            0x8000_0000,
+            0xFFFF_FFF0,
+            0xFFFF_FFFF,
+            0x00FF_FFFF,
+            0x0001_0000,
+            0x1000_0000,
+            0x0400_0000,
+            raw % (o as u64 + 3),
+        ]),
+        (Kind::Count | Kind::Len, _) => pick(&[
+            0,
+            1,
+            o.wrapping_sub(1) as u64,
+            o.wrapping_add(1) as u64,
+            23,
+            24,
+            25,
+            28,
+            0x7FFF,
+            0xFFFF,
+            raw,
+        ]),
+        (Kind::StrIdx, _) => idx(c.strings),
+        (Kind::DbgStrIdx, _) => idx(c.dbg_strings),
+        (Kind::TypeIdx, _) => idx(c.types),
+        (Kind::ConstIdx, _) => idx(c.consts),
+        (Kind::RefIdx, _) => idx(c.refs),
+        (Kind::PouId, _) => idx(c.pous),
+        (Kind::Offset, _) => pick(&[
+            0,
+            o.wrapping_add(1) as u64,
+            o.wrapping_sub(1) as u64,
+            o.wrapping_add(4) as u64,
+            o.wrapping_sub(4) as u64,
+            c.file_len as u64,
+            c.file_len.wrapping_sub(4) as u64,
+            c.bodies_len as u64,
+            c.bodies_len.wrapping_add(1) as u64,
+            20,
+            24,
+            0x7FFF_FFFC,
+            0xFFFF_FFFC,
+            0xFFFF_FFFF,
+            (raw % c.file_len.max(1) as u64) & !3,
+            raw % c.file_len.max(1) as u64,
+        ]),
+        (Kind::Size, _) => modelmut::IMAGE_SIZES[val as usize % modelmut::IMAGE_SIZES.len()] as u64,
+        (Kind::Jump, _) => {
+            let pc = f.pc as i64;
+            let len = f.code_len as i64;
+            let list: [i64; 16] = [
+                0,
+                -5,
+                i32::MAX as i64,
+                i32::MIN as i64,
+                i32::MAX as i64 - (pc + 5),
+                i32::MAX as i64 - (pc + 5) + 1,
+                i32::MAX as i64 - 4,
+                -(pc + 5),
+                -(pc + 6),
+                len - (pc + 5),
+                len - (pc + 5) + 1,
+                len - (pc + 5) - 1,
+                (o as i32 as i64) + 1,
+                (o as i32 as i64) - 1,
+                i32::MIN as i64 + pc + 5,
+                raw as i32 as i64,
+            ];
+            (list[val as usize % list.len()] as i32) as u32 as u64
+        }
+        (Kind::Enum8, _) => pick(&[0, 1, 2, 3, 4, 5, 6, 10, 11, 0x16, 0x7F, 0x80, 0xFF, raw & 0xFF, (raw >> 8) & 0xFF]),
+        (Kind::Reserved, _) => pick(&[1, 0xFF, 0xFFFF, raw]),
+        (Kind::I64, _) => {
+            let list = modelmut::I64S;
+            match val as usize % (list.len() + 2) {
+                0 => (orig as i64).wrapping_add(1) as u64,
+                1 => (orig as i64).wrapping_sub(1) as u64,
+                k => list[k - 2] as u64,
+            }
+        }
+        (Kind::Scalar, 4) => pick(&[
+            0,
+            1,
+            2,
+            3,
+            o.wrapping_add(1) as u64,
+            o.wrapping_sub(1) as u64,
+            0x7FFF_FFFF,
+            0xFFFF_FFF0,
+            0xFFFF_FFFF,
+            raw,
+        ]),
+        (Kind::Scalar, _) => pick(&[0, 1, 2, 3, 13, 14, 24, 25, 26, 27, 28, 0xFF, 0xFFFF, raw]),
+    };
+    if f.width >= 8 {
+        v
+    } else {
+        v & ((1u64 << (8 * f.width as u32)) - 1)
+    }
+}
+
+pub fn build_patched(case: &PatchCase) -> Option<(&'static Prog, Vec<u8>, Vec<String>)> {
+    let prog = corpus().find(&case.prog)?;
+    let lay = layouts().get(&case.prog)?;
+    let mut bytes = prog.bytes.clone();
+    let mut what = Vec::new();
+    for p in &case.patches {
+        let Some((key, members)) = lay
+            .classes
+            .iter()
+            .find(|(k, _)| k.0 == p.sec && k.1 == p.field)
+        else {
+            what.push(format!("(no field {}.{} in this container)", layout::section_name(p.sec), p.field));
+            continue;
+        };
+        let f = &lay.fields[members[scaled(p.inst, members.len())] as usize];
+        let orig = read_le(&prog.bytes, f.off, f.width);
+        let v = hostile_value(f, lay, orig, p.val, p.raw);
+        write_le(&mut bytes, f.off, f.width, v);
+        what.push(format!(
+            "{}.{}[{}]@{}: {:#x} -> {:#x}",
+            layout::section_name(key.0),
+            key.1,
+            f.entry,
+            f.off,
+            orig,
+            v
+        ));
+    }
+    match case.tail {
+        1 => {
+            let at = scaled(case.tail_arg, bytes.len() + 1);
+            bytes.truncate(at);
+            what.push(format!("truncated to {at} bytes"));
+        }
+        2 => {
+            let n = 1 + (case.tail_arg % 9) as usize;
+            for i in 0..n {
+                bytes.push((case.tail_arg >> (i % 4 * 8)) as u8);
+            }
+            what.push(format!("appended {n} bytes"));
+        }
+        3 => {
+            if !lay.sections.is_empty() {
+                let (_, off, len) = lay.sections[scaled(case.tail_arg, lay.sections.len())];
+                let at = (off + len).saturating_sub((case.tail_arg % 3) as usize);
+                bytes.truncate(at.min(bytes.len()));
+                what.push(format!("truncated at section end {at}"));
+            }
+        }
+        _ => {}
+    }
+    fix_crc(&mut bytes, case.crc);
+    Some((prog, bytes, what))
+}
+
+fn check_patch(case: &PatchCase, probe: &mut Probe) -> Result<(), String> {
+    let Some((prog, bytes, what)) = build_patched(case) else {
+        probe.label("patch=program_not_in_corpus");
+        return Ok(());
+    };
+    let out = check_container(&bytes, Some(prog), case.other)
+        .map_err(|e| format!("{e}\n  container = {} with {}", case.prog, what.join("; ")))?;
+    for p in &case.patches {
+        probe.label(format!("field={}.{}", layout::section_name(p.sec), p.field));
+    }
+    probe.label(match case.crc {
+        0 => "crc=recomputed",
+        1 => "crc=flag_cleared",
+        _ => "crc=stale",
+    });
+    record(
+        &out,
+        &bytes,
+        "patch",
+        probe,
+        json!({"class": "patch", "program": case.prog, "patches": what, "decode": out.decode, "validate": out.validate, "apply": out.apply}),
+    );
+    Ok(())
+}
+
+fn prog_name_strategy() -> impl Strategy<Value = String> {
+    let c = corpus();
+    let hand: Vec<String> = c
+        .progs
+        .iter()
+        .filter(|p| p.name.starts_with("hand/"))
+        .map(|p| p.name.clone())
+        .collect();
+    let all: Vec<String> = c.progs.iter().map(|p| p.name.clone()).collect();
+    let hand = if hand.is_empty() { all.clone() } else { hand };
+    prop_oneof![
+        1 => proptest::sample::select(hand),
+        1 => proptest::sample::select(all),
+    ]
+}
+
+/// Every (section, field) class of the corpus with the programs that contain it.
+fn class_table() -> &'static Vec<((u16, &'static str), Vec<String>)> {
+    static T: OnceLock<Vec<((u16, &'static str), Vec<String>)>> = OnceLock::new();
+    T.get_or_init(|| {
+        let mut map: BTreeMap<(u16, &'static str), Vec<String>> = BTreeMap::new();
+        for (name, lay) in layouts() {
+            for (k, _) in &lay.classes {
+                map.entry(*k).or_default().push(name.clone());
+            }
+        }
+        map.into_iter().collect()
+    })
+}
+
+/// The first patch picks its field class uniformly over *all* classes of the corpus and then
+/// a program that has it (hand-written ones preferred half of the time), so that rare
+/// fields (subrange bounds, interface slots, retain-init entries) are patched as often as
+/// common ones; further patches pick among the classes of that program.
+fn patch_strategy() -> impl Strategy<Value = PatchCase> {
+    let sel = (any::<u32>(), any::<u32>(), any::<u8>(), any::<u64>());
+    (
+        any::<u32>(),
+        any::<u32>(),
+        any::<bool>(),
+        prop_oneof![
+            6 => proptest::collection::vec(sel.clone(), 1..2),
+            3 => proptest::collection::vec(sel.clone(), 2..3),
+            1 => proptest::collection::vec(sel.clone(), 3..5),
+            1 => proptest::collection::vec(sel, 0..1),
+        ],
+        prop_oneof![12 => Just(0u8), 1 => Just(1u8), 1 => Just(2u8), 1 => Just(3u8)],
+        any::<u32>(),
+        prop_oneof![8 => Just(0u8), 5 => Just(1u8), 1 => Just(2u8)],
+        any::<u8>(),
+    )
+        .prop_map(|(class_sel, prog_sel, prefer_hand, sels, tail, tail_arg, crc, other)| {
+            let table = class_table();
+            let (first_key, progs) = &table[scaled(class_sel, table.len())];
+            let hand: Vec<&String> = progs.iter().filter(|p| p.starts_with("hand/")).collect();
+            let prog = if prefer_hand && !hand.is_empty() {
+                hand[scaled(prog_sel, hand.len())].clone()
+            } else {
+                progs[scaled(prog_sel, progs.len())].clone()
+            };
+            let lay = &layouts()[&prog];
+            let mut patches = Vec::new();
+            for (i, (c, inst, val, raw)) in sels.into_iter().enumerate() {
+                let key = if i == 0 {
+                    *first_key
+                } else {
+                    lay.classes[scaled(c, lay.classes.len())].0
+                };
+                patches.push(Patch {
+                    sec: key.0,
+                    field: key.1.to_string(),
+                    inst,
+                    val,
+                    raw,
+                });
+            }
+            PatchCase {
+                prog,
+                patches,
+                tail,
+                tail_arg,
+                crc,
+                other,
+            }
+        })
+}
+
+// ---------------------------------------------------------------------------------------
+// (3) typed model mutation
+
+#[derive(Clone, Debug, Serialize, Deserialize)]
+pub struct ModelCase {
+    pub prog: String,
+    pub tape: Tape,
+    pub other: u8,
+}
+
+pub fn build_model(case: &ModelCase) -> Option<(&'static Prog, BytecodeModule, Vec<String>)> {
+    let prog = corpus().find(&case.prog)?;
+    let mut m = prog.module.clone();
+    let mut r = Reader::new(&case.tape);
+    let log = modelmut::mutate(&mut m, &mut r);
+    Some((prog, m, log))
+}
+
+fn check_model(case: &ModelCase, probe: &mut Probe) -> Result<(), String> {
+    let Some((prog, m, log)) = build_model(case) else {
+        probe.label("model=program_not_in_corpus");
+        return Ok(());
+    };
+    let ctx = |e: String| format!("{e}\n  model = {} with {}", case.prog, log.join("; "));
+    let enc = catch(|| m.encode()).map_err(|p| ctx(format!("encode panicked: {p}")))?;
+    let bytes = match enc {
+        Ok(b) => b,
+        Err(e) => {
+            probe.label(format!("gen=model/encode=Err:{}", err_name(&e)));
+            return Ok(());
+        }
+    };
+    // decoding an encoded module reproduces the module
+    let dec = catch(|| BytecodeModule::decode(&bytes)).map_err(|p| ctx(format!("decode panicked: {p}")))?;
+    match dec {
+        Err(e) => {
+            return Err(ctx(format!(
+                "decode(encode(m)) fails with '{e}' for a representable module m"
+            )))
+        }
+        Ok(m2) => {
+            if modelmut::without_offsets(&m2) != modelmut::without_offsets(&m) {
+                return Err(ctx(format!(
+                    "decode(encode(m)) != m: {}",
+                    first_difference(&m, &m2)
+                )));
+            }
+        }
+    }
+    let out = check_container(&bytes, Some(prog), case.other).map_err(ctx)?;
+    for l in &log {
+        let head: String = l.split(':').next().unwrap_or("").chars().take(24).collect();
+        probe.label(format!("model_mut={head}"));
+    }
+    record(
+        &out,
+        &bytes,
+        "model",
+        probe,
+        json!({"class": "model", "program": case.prog, "mutations": log, "decode": out.decode, "validate": out.validate, "apply": out.apply}),
+    );
+    Ok(())
+}
+
+// ---------------------------------------------------------------------------------------
+// (4) emit direction
+
+fn check_emit(p: &Prog, probe: &mut Probe) -> Result<(), String> {
+    let v = catch(|| p.module.validate()).map_err(|e| format!("validate panicked: {e}"))?;
+    if let Err(e) = v {
+        return Err(format!("validate(compile(p)) = Err({e})"));
+    }
+    let d = catch(|| BytecodeModule::decode(&p.bytes))
+        .map_err(|e| format!("decode panicked: {e}"))?
+        .map_err(|e| format!("decode(encode(m)) fails: {e}"))?;
+    if d != p.module {
+        return Err(format!(
+            "decode(encode(m)) != m: {}",
+            if modelmut::without_offsets(&d) == modelmut::without_offsets(&p.module) {
+                "type offsets differ".to_string()
+            } else {
+                first_difference(&p.module, &d)
+            }
+        ));
+    }
+    let e2 = catch(|| d.encode())
+        .map_err(|e| format!("encode panicked: {e}"))?
+        .map_err(|e| format!("encode(decode(e)) fails: {e}"))?;
+    if e2 != p.bytes {
+        return Err(format!(
+            "encode(decode(e)) != e: first difference at byte {}",
+            first_byte_difference(&p.bytes, &e2)
+        ));
+    }
+    // the layout walker is an independent reading of the format: it must tile every section
+    if let Some(lay) = layouts().get(&p.name) {
+        if !lay.problems.is_empty() {
+            probe.label("emit=layout_walker_disagrees");
+            return Err(format!(
+                "independent layout walk of the emitted container does not tile it: {}",
+                lay.problems.join("; ")
+            ));
+        }
+    }
+    let out = check_container(&p.bytes, Some(p), (digest64(p.name.as_bytes()) & 0xff) as u8)?;
+    if out.validate != "Ok" {
+        return Err(format!("validate(decode(compile(p))) = {}", out.validate));
+    }
+    let kind = p.name.split('/').next().unwrap_or("");
+    probe.label(format!("emit_source={kind}"));
+    for s in &p.module.sections {
+        probe.label(format!("emit_has={}", layout::section_name(s.id)));
+    }
+    record(
+        &out,
+        &p.bytes,
+        "emit",
+        probe,
+        json!({"class": "emit", "program": p.name, "bytes": p.bytes.len(), "apply": out.apply}),
+    );
+    probe.nontrivial(&p.bytes);
+    Ok(())
+}
+
+// ---------------------------------------------------------------------------------------
+
 fn run(ctx: &mut RunCtx) {
-    ctx.inconclusive("check not built yet");
+    let tier = ctx.tier;
+    let c = corpus();
+    if c.progs.len() < 20 || c.hand_count() < 10 {
+        ctx.inconclusive(format!(
+            "program corpus too small: {} programs, {} hand-written",
+            c.progs.len(),
+            c.hand_count()
+        ));
+        return;
+    }
+    let mut by_stage: BTreeMap<&str, usize> = BTreeMap::new();
+    for r in &c.rejected {
+        *by_stage.entry(r.stage).or_default() += 1;
+    }
+    ctx.note(format!(
+        "corpus: {} candidates, {} compiled programs ({} hand-written), rejected {:?}",
+        c.candidates,
+        c.progs.len(),
+        c.hand_count(),
+        by_stage
+    ));
+    let nclasses: std::collections::BTreeSet<(u16, &str)> = layouts()
+        .values()
+        .flat_map(|l| l.classes.iter().map(|(k, _)| *k))
+        .collect();
+    ctx.note(format!(
+        "layout walker: {} distinct (section, field) classes over the corpus",
+        nclasses.len()
+    ));
+
+    // (4) emit direction: every compiled program, split over the workers
+    if ctx.only_replay.is_none() {
+        for (i, p) in c.progs.iter().enumerate() {
+            if i % ctx.nworkers.max(1) != ctx.worker {
+                continue;
+            }
+            let j = json!({"program": p.name});
+            ctx.enumerated("emit", &j, |probe| check_emit(p, probe));
+        }
+        if ctx.worker == 0 {
+            for r in &c.rejected {
+                if r.stage == "compile" && validator_class(&r.why) {
+                    let j = json!({"program": r.name});
+                    ctx.violation(
+                        "emit",
+                        &j,
+                        &format!(
+                            "the compiler built a container that fails its own validation: {}: {}",
+                            r.name, r.why
+                        ),
+                    );
+                } else if r.stage == "encode" || r.stage == "compile-panic" {
+                    ctx.note(format!("candidate {} rejected at {}: {}", r.name, r.stage, r.why));
+                }
+            }
+        }
+    }
+
+    // strict replay of an `emit` violation file ({"program": name})
+    if let Some(path) = ctx.only_replay.clone() {
+        if let Some(rf) = std::fs::read_to_string(&path)
+            .ok()
+            .and_then(|t| serde_json::from_str::<crate::engine::ReplayFile>(&t).ok())
+        {
+            if rf.search == "emit" {
+                let name = rf.case.get("program").and_then(|v| v.as_str()).unwrap_or("");
+                if let Some(p) = c.find(name) {
+                    ctx.stats.replays_run += 1;
+                    ctx.enumerated("emit", &rf.case, |probe| check_emit(p, probe));
+                } else if let Some(r) = c
+                    .rejected
+                    .iter()
+                    .find(|r| r.name == name && r.stage == "compile" && validator_class(&r.why))
+                {
+                    ctx.stats.replays_run += 1;
+                    ctx.violation(
+                        "emit",
+                        &rf.case,
+                        &format!(
+                            "the compiler built a container that fails its own validation: {}: {}",
+                            r.name, r.why
+                        ),
+                    );
+                } else if c.rejected.iter().any(|r| r.name == name) {
+                    // compiles no longer / not at all: nothing emitted, nothing to hold
+                    ctx.stats.replays_run += 1;
+                }
+                return;
+            }
+        }
+    }
+
+    // (1) raw bytes: pure random, random behind "STBC", framed random sections
+    let raw = prop_oneof![
+        2 => proptest::collection::vec(any::<u8>(), 0..200).prop_map(|b| RawCase { hex: to_hex(&b), kind: "random".into(), note: String::new(), runs: Vec::new() }),
+        2 => proptest::collection::vec(any::<u8>(), 0..120).prop_map(|b| {
+            let mut v = b"STBC\x01\x00\x01\x00".to_vec();
+            v.extend_from_slice(&b);
+            fix_crc(&mut v, (b.len() % 2) as u8);
+            RawCase { hex: to_hex(&v), kind: "random_after_magic".into(), note: String::new(), runs: Vec::new() }
+        }),
+        8 => tape_strategy(420).prop_map(|t| RawCase { hex: to_hex(&framed_from_tape(&t)), kind: "framed".into(), note: String::new(), runs: Vec::new() }),
+    ];
+    ctx.search("raw", raw, tier.pick(20_000, 800_000), check_raw);
+
+    // (2) byte-level patches of compiler-emitted containers
+    ctx.search("patch", patch_strategy(), tier.pick(40_000, 1_800_000), check_patch);
+
+    // (3) typed model mutations
+    let model = (prog_name_strategy(), tape_strategy(48), any::<u8>())
+        .prop_map(|(prog, tape, other)| ModelCase { prog, tape, other });
+    ctx.search("model", model, tier.pick(20_000, 1_200_000), check_model);
+}
+
+/// Entry point for the libFuzzer target (`/verif/fuzz`): same oracle, panics on a violation.
+pub fn fuzz_one(data: &[u8]) {
+    let mut bytes = data.to_vec();
+    // last byte chooses the CRC fix-up so that the fuzzer gets past the gate
+    if let Some(mode) = bytes.pop() {
+        fix_crc(&mut bytes, mode % 3);
+    }
+    if let Err(e) = check_container(&bytes, None, 0) {
+        panic!("C11 violation: {e}");
+    }
+}
+
+/// Helper subcommands (child processes of this check); None = not mine.
+pub fn helper(args: &[String]) -> Option<i32> {
+    match args.first().map(|s| s.as_str()) {
+        Some("c11-corpus") => {
+            crate::engine::install_quiet_panic_hook();
+            let t0 = std::time::Instant::now();
+            let c = corpus();
+            println!(
+                "{} candidates, {} programs ({} hand), {} rejected, {:.2}s",
+                c.candidates,
+                c.progs.len(),
+                c.hand_count(),
+                c.rejected.len(),
+                t0.elapsed().as_secs_f64()
+            );
+            for p in &c.progs {
+                let lay = layout::walk(&p.bytes);
+                let t = std::time::Instant::now();
+                let _ = apply_to(p, &p.bytes, None);
+                let dt = t.elapsed().as_secs_f64() * 1e3;
+                println!(
+                    "OK  {:70} {:7} bytes {:5} fields {:3} classes apply+cycles {dt:7.2} ms {}",
+                    p.name,
+                    p.bytes.len(),
+                    lay.fields.len(),
+                    lay.classes.len(),
+                    lay.problems.join("; ")
+                );
+            }
+            for r in &c.rejected {
+                println!("REJ {:70} {:14} {}", r.name, r.stage, r.why);
+            }
+            Some(0)
+        }
+        // c11-fuzz <runs> [seed]: bounded libFuzzer campaign on /verif/fuzz (target stbc_decode),
+        // seeded with the corpus containers. Cannot run inside a worker (RLIMIT_AS); meant to
+        // be called by ./check in the thorough tier. Exit 0 held / 1 VIOLATION / 2 could not run.
+        Some("c11-fuzz") => {
+            crate::engine::install_quiet_panic_hook();
+            let runs: u64 = args.get(1).and_then(|s| s.parse().ok()).unwrap_or(1_000_000);
+            let seed: u64 = args
+                .get(2)
+                .and_then(|s| s.parse().ok())
+                .or_else(|| std::env::var("VERIF_SEED").ok().and_then(|s| s.parse().ok()))
+                .unwrap_or(20260925);
+            let root = crate::engine::verif_root();
+            let fuzz_dir = std::env::var("TPV_FUZZ_DIR")
+                .map(std::path::PathBuf::from)
+                .unwrap_or_else(|_| root.join("fuzz"));
+            if !fuzz_dir.join("Cargo.toml").exists() {
+                eprintln!("INCONCLUSIVE: no fuzz crate at {}", fuzz_dir.display());
+                return Some(2);
+            }
+            let work = fuzz_dir.join("corpus-run").join("stbc_decode");
+            let _ = std::fs::remove_dir_all(&work);
+            let _ = std::fs::create_dir_all(&work);
+            for (i, p) in corpus().progs.iter().enumerate() {
+                // trailing byte = CRC mode (0 recompute); see fuzz_one
+                let mut b = p.bytes.clone();
+                b.push(0);
+                let _ = std::fs::write(work.join(format!("seed-{i:04}")), b);
+            }
+            let artifacts = fuzz_dir.join("corpus-run").join("artifacts");
+            let _ = std::fs::remove_dir_all(&artifacts);
+            let _ = std::fs::create_dir_all(&artifacts);
+            let target_dir = std::env::var("TPV_FUZZ_TARGET_DIR")
+                .map(std::path::PathBuf::from)
+                .unwrap_or_else(|_| fuzz_dir.join("target"));
+            let harness_dir = fuzz_dir.parent().map(|p| p.join("harness")).unwrap_or_else(|| root.join("harness"));
+            let status = std::process::Command::new("cargo")
+                .current_dir(&harness_dir)
+                .env("RUSTFLAGS", "--cfg trust_platform_verif")
+                .env("CARGO_TARGET_DIR", &target_dir)
+                .env("CARGO_NET_OFFLINE", "true")
+                .args(["+nightly", "fuzz", "run", "--fuzz-dir"])
+                .arg(&fuzz_dir)
+                .arg("stbc_decode")
+                .arg(&work)
+                .arg("--")
+                .arg(format!("-runs={runs}"))
+                .arg(format!("-seed={}", seed & 0xffff_ffff))
+                .arg("-max_len=65536")
+                .arg("-rss_limit_mb=2048")
+                .arg("-malloc_limit_mb=1024")
+                .arg("-timeout=120")
+                .arg("-print_final_stats=1")
+                .arg(format!("-artifact_prefix={}/", artifacts.display()))
+                .status();
+            let found: Vec<std::path::PathBuf> = std::fs::read_dir(&artifacts)
+                .map(|rd| rd.flatten().map(|e| e.path()).collect())
+                .unwrap_or_default();
+            if !found.is_empty() {
+                let out_dir = root.join("out").join("C11");
+                let _ = std::fs::create_dir_all(&out_dir);
+                for a in found {
+                    let Ok(mut bytes) = std::fs::read(&a) else { continue };
+                    if let Some(mode) = bytes.pop() {
+                        fix_crc(&mut bytes, mode % 3);
+                    }
+                    let name = format!("viol-fuzz-{:016x}.json", digest64(&bytes));
+                    let rec = json!({
+                        "property": "C11",
+                        "search": "raw",
+                        "expect": "pass",
+                        "message": format!("libFuzzer artifact {}", a.file_name().and_then(|n| n.to_str()).unwrap_or("")),
+                        "case": {"hex": to_hex(&bytes), "kind": "libfuzzer", "note": "libFuzzer stbc_decode"},
+                    });
+                    let path = out_dir.join(name);
+                    let _ = std::fs::write(&path, serde_json::to_string_pretty(&rec).unwrap());
+                    println!("VIOLATION property=C11 replay={}", path.display());
+                }
+                return Some(1);
+            }
+            match status {
+                Ok(s) if s.success() => {
+                    println!("C11 libFuzzer stbc_decode: {runs} runs, seed {seed}, no crash");
+                    Some(0)
+                }
+                Ok(s) => {
+                    eprintln!("INCONCLUSIVE: cargo fuzz exited with {s} and left no artifact");
+                    Some(2)
+                }
+                Err(e) => {
+                    eprintln!("INCONCLUSIVE: cannot run cargo fuzz: {e}");
+                    Some(2)
+                }
+            }
+        }
+        // c11-repro <dir>: write the self-contained reproducers of F16/F17/F18 as raw replays
+        Some("c11-repro") => {
+            crate::engine::install_quiet_panic_hook();
+            let dir = std::path::PathBuf::from(args.get(1)?);
+            let _ = std::fs::create_dir_all(&dir);
+            let write = |name: &str, message: &str, bytes: &[u8], note: &str| {
+                let out = json!({
+                    "property": "C11",
+                    "search": "raw",
+                    "expect": "pass",
+                    "message": message,
+                    "case": {"hex": to_hex(bytes), "kind": "replay", "note": note},
+                });
+                let _ = std::fs::write(dir.join(name), serde_json::to_string_pretty(&out).unwrap());
+            };
+            let patch = |prog: &str, sec: u16, field: &str, val: u8, crc: u8| PatchCase {
+                prog: prog.into(),
+                patches: vec![Patch {
+                    sec,
+                    field: field.into(),
+                    inst: 0,
+                    val,
+                    raw: 0,
+                }],
+                tail: 0,
+                tail_arg: 0,
+                crc,
+                other: 0,
+            };
+            // F16: CONST_POOL count = 0xFFFFFFF0, CRC flag cleared
+            let (_, b, what) = build_patched(&patch("hand/counter", 3, "count", 7, 1))?;
+            write(
+                "f16-const-pool-count-crc-flag-cleared.json",
+                "F16: decode aborts (memory allocation of 137438952960 bytes failed): Vec::with_capacity(untrusted count)",
+                &b,
+                &what.join("; "),
+            );
+            // F16 with a recomputed CRC, nested count (REF_TABLE segment_count = 0x7FFFFFFF)
+            let (_, b, what) = build_patched(&patch("hand/io_bindings", 4, "segment_count", 5, 0))?;
+            write(
+                "f16-ref-segment-count-crc-recomputed.json",
+                "F16: decode aborts on a nested count (REF_TABLE segment_count) behind a valid CRC",
+                &b,
+                &what.join("; "),
+            );
+            // F18: first jump of hand/control_flow gets offset i32::MAX
+            let (_, b, what) = build_patched(&patch("hand/control_flow", 6, "code.jump_offset", 2, 0))?;
+            write(
+                "f18-jump-offset-i32-max.json",
+                "F18: validate panics 'attempt to add with overflow' computing pc + 5 + offset in i32",
+                &b,
+                &what.join("; "),
+            );
+            // F17: alias -> itself, array of itself (deep, acyclic in the payload)
+            use trust_runtime::bytecode::{ConstEntry, SectionData, SectionId, TypeData, TypeEntry, TypeKind};
+            let base = corpus().find("hand/counter")?;
+            for (name, msg, deep) in [
+                ("f17-alias-to-itself.json", "F17: validate overflows the stack on a constant whose type is an alias of itself", false),
+                ("f17-array-of-itself-deep-payload.json", "F17: validate overflows the stack on a constant of a self-containing array type with 120000 nested counts", true),
+            ] {
+                let mut m = base.module.clone();
+                let mut id = 0u32;
+                if let Some(SectionData::TypeTable(t)) = m.section_mut(SectionId::TypeTable) {
+                    id = t.entries.len() as u32;
+                    t.entries.push(if deep {
+                        TypeEntry {
+                            kind: TypeKind::Array,
+                            name_idx: None,
+                            data: TypeData::Array {
+                                elem_type_id: id,
+                                dims: vec![(0, 0)],
+                            },
+                        }
+                    } else {
+                        TypeEntry {
+                            kind: TypeKind::Alias,
+                            name_idx: None,
+                            data: TypeData::Alias { target_type_id: id },
+                        }
+                    });
+                }
+                if let Some(SectionData::ConstPool(pool)) = m.section_mut(SectionId::ConstPool) {
+                    let mut payload = Vec::new();
+                    for _ in 0..if deep { 120_000 } else { 1 } {
+                        payload.extend_from_slice(&1u32.to_le_bytes());
+                    }
+                    pool.entries.push(ConstEntry { type_id: id, payload });
+                }
+                let bytes = m.encode().ok()?;
+                if deep {
+                    // elide the 120000 x "01 00 00 00" stretch (keep the first and last unit)
+                    let unit = 1u32.to_le_bytes();
+                    let needle: Vec<u8> = unit.iter().copied().cycle().take(4 * 1000).collect();
+                    let start = bytes.windows(needle.len()).position(|w| w == &needle[..])?;
+                    let mut end = start;
+                    while bytes.get(end..end + 4) == Some(&unit[..]) {
+                        end += 4;
+                    }
+                    let times = (end - start) / 4 - 2;
+                    let mut short = bytes[..start + 4].to_vec();
+                    short.extend_from_slice(&bytes[start + 4 + times * 4..]);
+                    let case = RawCase {
+                        hex: to_hex(&short),
+                        kind: "replay".into(),
+                        note: "hand/counter + array-of-itself type + constant with 120000 nested counts".into(),
+                        runs: vec![Run {
+                            at: start + 4,
+                            hex: to_hex(&unit),
+                            times,
+                        }],
+                    };
+                    assert_eq!(case.bytes(), bytes);
+                    let out = json!({"property": "C11", "search": "raw", "expect": "pass", "message": msg, "case": case});
+                    let _ = std::fs::write(dir.join(name), serde_json::to_string_pretty(&out).unwrap());
+                } else {
+                    write(name, msg, &bytes, "hand/counter + alias-of-itself type + constant of that type");
+                }
+            }
+            Some(0)
+        }
+        // c11-to-raw <replay-or-violation file of search patch/model>: print the same
+        // container as a self-contained `raw` replay file
+        Some("c11-to-raw") => {
+            crate::engine::install_quiet_panic_hook();
+            let path = args.get(1)?;
+            let text = std::fs::read_to_string(path).ok()?;
+            let rf: crate::engine::ReplayFile = serde_json::from_str(&text).ok()?;
+            let (bytes, note) = match rf.search.as_str() {
+                "patch" => {
+                    let case: PatchCase = serde_json::from_value(rf.case.clone()).ok()?;
+                    let (_, b, what) = build_patched(&case)?;
+                    (b, format!("{}: {}", case.prog, what.join("; ")))
+                }
+                "model" => {
+                    let case: ModelCase = serde_json::from_value(rf.case.clone()).ok()?;
+                    let (_, m, log) = build_model(&case)?;
+                    (m.encode().ok()?, format!("{}: {}", case.prog, log.join("; ")))
+                }
+                _ => return Some(2),
+            };
+            let out = json!({
+                "property": "C11",
+                "search": "raw",
+                "expect": "pass",
+                "message": rf.message,
+                "case": {"hex": to_hex(&bytes), "kind": "replay", "note": note},
+            });
+            println!("{}", serde_json::to_string_pretty(&out).unwrap());
+            Some(0)
+        }
+        _ => None,
+    }
 }
